@@ -55,6 +55,15 @@ def sig_programs():
                 [('2x2', [Obj('P', qa=[Obj('Q', q=1, ra=[Obj('R', v=10), Obj('R', v=11)]), Obj('Q', q=2, ra=[Obj('R', v=20), Obj('R', v=21)])])]),
                  ('ragged', [Obj('P', qa=[Obj('Q', q=1, ra=[Obj('R', v=10)]), Obj('Q', q=2, ra=[Obj('R', v=20), Obj('R', v=21), Obj('R', v=22)]),
                                           Obj('Q', q=3, ra=None)])])]))
+    # nested objects and object-array elements whose class inherits members from a parent class
+    B0 = {'n': 'B0', 'fields': [['b', I], ['bs', U]]}
+    QI = {'n': 'Q', 'base': 'B0', 'fields': [['q', I]]}
+    PI = {'n': 'P', 'base': 'B0', 'fields': [['qq', ['c', 'Q', {}]], ['qa', ['a', ['c', 'Q', {}], {}]], ['qs', ['c', 'Q', {'max_occurs': 'unbounded'}]]]}
+    mi = {'n': 'm', 'args': [['a', ['c', 'P', {}]], ['o', ['c', 'Q', {}]]], 'ret': I}
+    out.append(('inherited', {'tns': TNS, 'classes': [B0, QI, PI], 'services': [{'n': 'S', 'methods': [mi]}]},
+                [('all', [Obj('P', b=1, bs='top', qq=Obj('Q', b=2, bs='in', q=3), qa=[Obj('Q', b=4, bs='e0', q=5), Obj('Q', b=6, bs=None, q=None)],
+                              qs=[Obj('Q', b=7, bs=None, q=8)]), Obj('Q', b=9, bs='arg', q=10)]),
+                 ('inherited-only', [Obj('P', b=None, bs=None, qq=Obj('Q', b=2, bs=None, q=None), qa=[Obj('Q', b=4, bs=None, q=None)], qs=None), Obj('Q', b=9, bs=None, q=None)])]))
     # heterogeneous object arrays: every pattern of which members each of 3 elements spells (an element spelling a
     # member its predecessors left out changes the sorted key order - the strict_arrays index bookkeeping depends on it)
     QH = {'n': 'Q', 'fields': [['q', I], ['s', U]]}
